@@ -41,7 +41,9 @@ TEXTS = {
                 "nodes, children under two message types and add_child, some also held from outside, parents ending "
                 "by every cause).",
         "design_ref": "DESIGN.md §5 C16",
-        "note": "Exactly-once is theorem C16q_holds (monC16q): at its quiescent point every actor that was never stopped, "
+        "note": "Unit broadcasts (send_to_children(()) to add_child children) are observed too: the harness numbers them "
+                "per add_child registration, the child's Handler<()> claims the numbers in mailbox order. "
+                "Exactly-once is theorem C16q_holds (monC16q): at its quiescent point every actor that was never stopped, "
                 "restarted, failed or stream-ended has taken every broadcast up exactly once per registration. "
                 "Graceful stop of released children is C05q_holds on the child's projection (sys_actor_run), also "
                 "checked on every actor's projection of every real trace. Trusted: Lean kernel + axioms; "
@@ -80,7 +82,9 @@ TEXTS = {
                 "'a late await returns Ok after a graceful end' is proved under noCancelAfterStopped (C02t_holds) and "
                 "checked directly on real traces.",
         "design_ref": "DESIGN.md §5 C02",
-        "note": "monC02t (a late await after a graceful end returns Ok) is false of unguarded runs and proved for guarded "
+        "note": "Only operations begun after the end of the task are refused with a send error: SendErr_holds (no "
+                "hypothesis), monSendErr in the chain. "
+                "monC02t (a late await after a graceful end returns Ok) is false of unguarded runs and proved for guarded "
                 "runs (C02g_holds), which are what the acceptor accepts. 'Awaits complete with the termination result' is "
                 "carried in the chain by monC04 (announcement clauses) and monC06 (both proved). Trusted: Lean "
                 "kernel + axioms; oneshot reply channels modelled as op states, validated by trace acceptance.",
@@ -197,7 +201,8 @@ TEXTS = {
         "note": "The drain barrier is theorem C04q_holds (monC04q, both clauses, every run; WellWired05, fresh message "
                 "numbers and operation ids): a message submitted after an accepted stop request returned is never "
                 "handled and its call errs; at every quiescent point after an accepted stop without failure the actor "
-                "has terminated and every send acknowledged before the first stop request was handled. Trusted: Lean "
+                "has terminated and every send acknowledged before the first stop request was handled. The mailbox stays "
+                "open through stopped(): SendErr_holds (no hypothesis), monSendErr in the chain. Trusted: Lean "
                 "kernel + axioms; latch/oneshot/Shared model validated by trace acceptance.",
         "technique": "Lean 4 proof (latch/result state invariants + flag/phase simulation) + regenerated wiring + checked trace correspondence",
     },
@@ -212,7 +217,9 @@ TEXTS = {
         "note": "The None clauses (monC17n: None / AlreadyStopped only for a join that found the slot taken, or after "
                 "termination when the actor failed or the value was already handed out; a join that found the slot "
                 "taken never yields a value) are theorem C17n_holds (fresh operation ids; consume is the last use of "
-                "the owning address). The harness also exercises join futures that are created and dropped unpolled. "
+                "the owning address). Errors of consume (= stop + join): theorem SendErr_holds (no hypothesis) - an operation "
+                "is refused with a send error only after the end of the task, the mailbox stays open through stopped() - "
+                "with monSendErr in the chain. The harness also exercises join futures that are created and dropped unpolled. "
                 "Trusted: Lean kernel + axioms; join-slot model (async mutex + JoinHandle) validated by trace acceptance.",
         "technique": "Lean 4 proof (result-slot and log refinement on top of the latch invariants) + regenerated wiring + checked trace correspondence",
     },
